@@ -12,7 +12,15 @@ Inductive case :=
   | CFilt (m : fmode) (xs ys : list float) (knees labels hull : list nat)
           (scores : list (list nat * list float)) (sd : list (nat * nat * float)) (out : option (list nat))
   (* postprocessing.filter_clusters_corners(points, knees, clustering, t) returned `out` *)
-  | CCorner (xs ys : list float) (knees labels : list nat) (out : option (list nat)).
+  | CCorner (xs ys : list float) (knees labels : list nat) (out : option (list nat))
+  (* as CFilt, with the ranking score DERIVED in the model: r2tab = lf.r2(x[a:b], y[a:b]) keyed by the slice bounds (the only
+     oracle of the left / linear / right score); obs = what kr.smooth_ranking returned per multi-member cluster, compared
+     bit-for-bit with the derived score ("the ranking score is the stated one") *)
+  | CFilt2 (m : fmode) (xs ys : list float) (knees labels hull : list nat)
+           (r2tab : list (nat * nat * float)) (obs : list (list nat * list float)) (sd : list (nat * nat * float))
+           (out : option (list nat))
+  (* as CCorner; obs = postprocessing.rank_corners_triangle(points, cluster) per cluster, compared bit-for-bit with tri_score *)
+  | CCorner2 (xs ys : list float) (knees labels : list nat) (obs : list (list nat * list float)) (out : option (list nat)).
 
 Definition F := T FloatNum.
 
@@ -76,6 +84,30 @@ Definition top_tie (r : list float) : bool :=
 Definition has_nan_scores (m : fmode) (knees labels : list nat) (scores : list (list nat * list float)) : bool :=
   existsb (fun c => negb (length c <=? 1) && negb (@all_notnan FloatNum (score_of scores c))) (clusters labels knees).
 
+(* ---- derived-score judging (CFilt2 / CCorner2) ---- *)
+Definition needs_left (m : fmode) : bool := match m with MLeft | MLinear => true | _ => false end.
+Definition needs_right (m : fmode) : bool := match m with MRight | MLinear => true | _ => false end.
+Definition has_key (tab : list (nat * nat * float)) (a b : nat) : bool :=
+  match find_sd tab a b with Some _ => true | None => false end.
+(* every lf.r2 slice the derived score asks for is in the table *)
+Definition r2_keys_ok (m : fmode) (knees labels : list nat) (r2tab : list (nat * nat * float)) : bool :=
+  forallb (fun c =>
+    if length c <=? 1 then true
+    else let j := hd 0 c in let kl := last c 0 in
+         forallb (fun k => (if needs_left m then has_key r2tab j (k + 1) else true)
+                           && (if needs_right m then has_key r2tab k kl else true)) c)
+  (clusters labels knees).
+Definition derived_score (m : fmode) (ys : list float) (r2tab : list (nat * nat * float)) (c : list nat) : list float :=
+  @smooth_score FloatNum (sd_of r2tab) ys m c.
+(* the observed score lists equal the derived ones bit-for-bit on every cluster selected by `sel` *)
+Definition obs_same (sel : list nat -> bool) (scoref : list nat -> list float) (labels knees : list nat)
+           (obs : list (list nat * list float)) : bool :=
+  forallb (fun c => if sel c then match find_score obs c with
+                                  | Some r => list_all2 f_same r (scoref c)
+                                  | None => false
+                                  end
+                    else true) (clusters labels knees).
+
 (* result code = 100 * agree + holds *)
 Definition judge (c : case) : Z :=
   match c with
@@ -105,6 +137,39 @@ Definition judge (c : case) : Z :=
                    else if negb (@best_b FloatNum false (fun c => map (@tri_score FloatNum xs ys) c) labels knees o) then 2%Z else 0%Z
                end in
       (100 * a + h)%Z
+  | CFilt2 m xs ys knees labels hull r2tab obs sd out =>
+      if negb (domain false xs ys knees labels) then 600%Z else
+      if negb (if is_hull m then keys_ok m (length xs) knees labels hull [] sd else r2_keys_ok m knees labels r2tab) then 400%Z else
+      let sc := derived_score m ys r2tab in
+      let model := @filter_clusters FloatNum (@argsort_stable FloatNum) sc hull (sd_of sd) xs m labels knees in
+      let ranked c := if length c <=? 1 then None
+                      else if is_hull m then @hull_rankings FloatNum hull (sd_of sd) xs c else Some (sc c) in
+      let tie := existsb (fun c => match ranked c with Some r => top_tie r | None => false end) (clusters labels knees) in
+      let a := if tie then 5%Z else if opt_list_eqb model out then 0%Z else 1%Z in
+      let h := match out with
+               | None => 9%Z
+               | Some o =>
+                   if is_hull m then
+                     (if negb (hull_ok_b hull labels knees o) then 1%Z
+                      else if negb (@best_b FloatNum true (@hull_score FloatNum hull (sd_of sd) xs) labels knees o) then 2%Z else 0%Z)
+                   else if negb (one_per_cluster_b labels knees o) then 1%Z
+                   else if negb (@best_b FloatNum true sc labels knees o) then 2%Z
+                   else if negb (obs_same (fun c => negb (length c <=? 1)) sc labels knees obs) then 3%Z else 0%Z
+               end in
+      (100 * a + h)%Z
+  | CCorner2 xs ys knees labels obs out =>
+      if negb (domain true xs ys knees labels) then 600%Z else
+      let sc := fun c => map (@tri_score FloatNum xs ys) c in
+      let model := @filter_clusters_corners FloatNum xs ys labels knees in
+      let a := if opt_list_eqb model out then 0%Z else 1%Z in
+      let h := match out with
+               | None => 9%Z
+               | Some o =>
+                   if negb (one_per_cluster_b labels knees o) then 1%Z
+                   else if negb (@best_b FloatNum false sc labels knees o) then 2%Z
+                   else if negb (obs_same (fun _ => true) sc labels knees obs) then 3%Z else 0%Z
+               end in
+      (100 * a + h)%Z
   end.
 
 (* the model's own output, for replay files *)
@@ -113,4 +178,7 @@ Definition show (c : case) : option (list nat) :=
   | CFilt m xs ys knees labels hull scores sd out =>
       @filter_clusters FloatNum (@argsort_stable FloatNum) (score_of scores) hull (sd_of sd) xs m labels knees
   | CCorner xs ys knees labels out => @filter_clusters_corners FloatNum xs ys labels knees
+  | CFilt2 m xs ys knees labels hull r2tab obs sd out =>
+      @filter_clusters FloatNum (@argsort_stable FloatNum) (derived_score m ys r2tab) hull (sd_of sd) xs m labels knees
+  | CCorner2 xs ys knees labels obs out => @filter_clusters_corners FloatNum xs ys labels knees
   end.
